@@ -85,6 +85,11 @@ pub fn run(seed: u64, thorough: bool, out_dir: &std::path::Path) -> Out {
         .collect();
     let mut descs: Vec<BTreeMap<String, Vec<Value>>> = (0..shards).map(|_| BTreeMap::new()).collect();
 
+    // ---- the orphan pool's periodic clean-up (a 60 s timer of the chain service) runs at least once while
+    //      an orphan of the current epoch waits: it must stay and be connected when its parent arrives.
+    //      In a thread of its own, next to the main stream.
+    let retention = std::thread::spawn(orphan_retention_probe);
+
     let n_trees = hx_common::shard_share(if thorough { 400 } else { 36 });
     let scheds_per_tree = if thorough { 6 } else { 3 };
     let mut case_no = 0usize;
@@ -152,8 +157,14 @@ pub fn run(seed: u64, thorough: bool, out_dir: &std::path::Path) -> Out {
                         let ncv_above = path.iter().any(|a| *a != *d && tree.node(*a).kind == Kind::BadTxRoot);
                         if all_there && !ncv_above { expect.push(*d); }
                     }
-                    let t0 = Instant::now();
+                    // wait for quiescence; the clock restarts whenever something moves (a verdict arrives, the
+                    // orphan pool changes), so a loaded machine is not mistaken for a stalled pipeline
+                    let mut t0 = Instant::now();
+                    let mut last_seen = (usize::MAX, usize::MAX);
+                    let mut stalled = false;
                     loop {
+                        let seen = (verdicts.values().map(|v| v.len()).sum::<usize>(), node.chain().orphan_blocks_len());
+                        if seen != last_seen { last_seen = seen; t0 = Instant::now(); }
                         pending.retain(|p| match p.rx.try_recv() {
                             Ok(v) => { verdicts.entry(p.id).or_default().push(v.is_ok()); false }
                             Err(std::sync::mpsc::TryRecvError::Empty) => true,
@@ -163,14 +174,16 @@ pub fn run(seed: u64, thorough: bool, out_dir: &std::path::Path) -> Out {
                         // block is waiting in the orphan pool
                         let waiting = delivered.iter().filter(|d| !verdicts.contains_key(d)).count();
                         if expect.iter().all(|e| verdicts.contains_key(e)) && node.chain().orphan_blocks_len() == waiting { break; }
-                        if t0.elapsed() > Duration::from_secs(20) {
+                        if t0.elapsed() > Duration::from_secs(60) {
                             let missing: Vec<u64> = expect.iter().filter(|e| !verdicts.contains_key(e)).cloned().collect();
-                            viol.push(json!({"what": "not quiescent after 20 s: a delivered block whose ancestors were all delivered was not processed, or a block with a missing ancestor is not held in the orphan pool",
+                            viol.push(json!({"what": "nothing moved for 60 s and the node is not quiescent: a delivered block whose ancestors were all delivered was not processed, or a block with a missing ancestor is not held in the orphan pool",
                                              "detail": {"case": jcase, "step": step, "unprocessed": missing, "orphan_pool": node.chain().orphan_blocks_len(), "delivered_without_verdict": waiting}}));
+                            stalled = true;
                             break;
                         }
                         std::thread::sleep(Duration::from_micros(300));
                     }
+                    if stalled { break; }
                     // settle: verdicts for duplicates may still be in flight; they cannot move the tip
                     let snap = node.shared.snapshot();
                     let tip_id = tree.id_of(&snap.tip_hash());
@@ -320,9 +333,52 @@ pub fn run(seed: u64, thorough: bool, out_dir: &std::path::Path) -> Out {
             }
         }
     }
+    match retention.join() {
+        Ok(v) => { out.viol.extend(v); *out.stats.entry("orphan_retention_probes".into()).or_default() += 1; out.evaluations += 1; }
+        Err(_) => out.viol.push(json!({"what": "the orphan-retention probe panicked", "detail": {"stream": "orphan-retention"}})),
+    }
     for (i, cf) in files.iter().enumerate() {
         cf.write().unwrap();
         std::fs::write(out_dir.join(format!("cases_{:02}.json", i)), serde_json::to_string(&descs[i]).unwrap()).unwrap();
     }
     out
+}
+
+/// A chain of 14 blocks (one epoch); the node gets 1..10, then 12 and 14 (orphans: parents missing), then
+/// nothing for a little more than one clean-up period, then 11 and 13.
+fn orphan_retention_probe() -> Vec<Value> {
+    let mut viol = vec![];
+    let cfg = ChainCfg::default();
+    let (consensus, _) = make_consensus(&cfg);
+    let builder = Node::temp(&consensus);
+    let mut chain = vec![];
+    for k in 0..14u128 {
+        let b = build_block(&builder, &BlockPlan { ts_delta: 5, nonce: 7000 + k, ..Default::default() });
+        builder.process(&b).expect("valid");
+        chain.push(b);
+    }
+    builder.stop();
+    let ctx = json!({"stream": "orphan-retention", "chain": 14, "delivered_first": "1..10, 12, 14", "then_after_65s": "11, 13"});
+    let node = Node::temp(&consensus);
+    let t0 = Instant::now();
+    for b in &chain[..10] { if node.process(b).is_err() { viol.push(json!({"what": "a valid block was rejected", "detail": ctx})); return viol; } }
+    let _r12 = node.deliver(&chain[11]);
+    let _r14 = node.deliver(&chain[13]);
+    let wait_orphans = |want: usize, secs: u64| { let t = Instant::now(); while node.chain().orphan_blocks_len() != want && t.elapsed() < Duration::from_secs(secs) { std::thread::sleep(Duration::from_millis(5)); } node.chain().orphan_blocks_len() };
+    if wait_orphans(2, 90) != 2 { viol.push(json!({"what": "blocks whose parents are missing are not held in the orphan pool", "detail": ctx})); }
+    // one clean-up tick for sure (the timer started with the chain service)
+    while t0.elapsed() < Duration::from_secs(64) { std::thread::sleep(Duration::from_millis(200)); }
+    let held = node.chain().orphan_blocks_len();
+    if held != 2 {
+        viol.push(json!({"what": format!("after the orphan pool's periodic clean-up only {held} of 2 orphans of the current epoch are still held (the retention horizon is several epochs)"), "detail": ctx}));
+    }
+    let _ = node.process(&chain[10]);
+    let _ = node.process(&chain[12]);
+    let t = Instant::now();
+    while node.tip().number() != 14 && t.elapsed() < Duration::from_secs(120) { std::thread::sleep(Duration::from_millis(5)); }
+    if node.tip().hash() != chain[13].hash() {
+        viol.push(json!({"what": format!("orphans that waited through a clean-up period were not connected when their parents arrived: tip is at height {} instead of 14", node.tip().number()), "detail": ctx}));
+    }
+    node.stop();
+    viol
 }
